@@ -220,6 +220,8 @@ type Exec struct {
 	curEntry           []Heap
 	iters              []*IterV
 	opaqueNil          map[*OpaqueV]*Term
+	poisoned           map[*ssa.Package]string // packages whose initialiser could not be executed
+	initGuard          bool
 	ctxDone            map[string]*Term // opaque context -> "its Done channel is known to be closed"
 	mapLens            []mapLen
 	bounded            []string // loops cut at a fixed depth: the obligations of this run can refute, not prove
@@ -586,7 +588,7 @@ func (x *Exec) load(p *PtrV, st *State, pc *Term, what string) Value {
 	if p.Obj.Share {
 		// shared with a running goroutine: any value
 		v := x.getPath(st.h[p.Obj], p.Path)
-		if iv, ok := v.(*IfaceV); ok && strings.HasSuffix(p.Obj.name, ".ctxErr") {
+		if iv, ok := v.(*IfaceV); ok && iv.T != nil && iv.T.String() == "error" {
 			// rely (established for the watcher by Run/cancel/value): once the flag
 			// is set the cell holds the non-nil ctx.Err()
 			return &IfaceV{Nil: x.b.False(), Opaque: "ctx.Err()", T: iv.T}
@@ -990,9 +992,14 @@ func (x *Exec) run(fn *ssa.Function, args []Value, st *State, pcIn *Term) (Value
 				if !ok {
 					unsupported("go statement on a non-closure")
 				}
-				// cells captured by the goroutine become shared
+				// cells captured by the goroutine, or handed to it by pointer, become shared
 				for _, bd := range fv.Bindings {
 					if p, ok := bd.(*PtrV); ok && p.Obj != nil {
+						p.Obj.Share = true
+					}
+				}
+				for _, a := range i.Call.Args {
+					if p, ok := get(a).(*PtrV); ok && p.Obj != nil {
 						p.Obj.Share = true
 					}
 				}
